@@ -1126,10 +1126,13 @@ FILL_TABLE = [
     ("plain/file.name.txt", {}, {}),
     ("/data/{mode}/{year}.nc", {"mode": "(?P<mode>[^/]+)"}, {"mode": "(?P<mode>day|night)"}),
     ("/data/{unknown}/{year}.nc", {}, {}),
+    ("/data/{year}{month}{day}_{hour}.nc", {"hour": "(?P<hour>\\d{1,2})"}, {}),          # a user placeholder overrides a temporal one
+    ("/data/{year}{month}{day}_{hour}.nc", {"hour": "(?P<hour>\\d{1,2})"}, {"hour": "(?P<hour>0\\d)"}),
 ]
 FILL_VALUES = {"year": ["2017", "2018"], "year2": ["17"], "month": ["01", "12"], "day": ["02", "31"], "doy": ["001", "366"], "hour": ["00", "23"], "minute": ["05"], "second": ["59"],
                "millisecond": ["123"], "end_hour": ["01"], "end_minute": ["30"], "sat": ["noaa18", "metop_a", "a.b"], "product": ["mhs", "l2"], "a": ["AB", "C"], "b": ["1", "22"],
                "mode": ["day", "night", "dusk"]}
+FILL_EXTRA_NAMES = ["/data/20170102_7.nc", "/data/20170102_07.nc", "/data/20170102_17.nc", "/data/20170102_007.nc"]
 
 
 def _fill_reference(template, placeholders):
@@ -1192,7 +1195,8 @@ TRIP_TEMPLATES = [
     "/d/{year}{month}{day}_{hour}{minute}-{end_hour}{end_minute}.nc",
 ]
 TRIP_TIMES = [((2017, 1, 2, 3, 4, 5, 678000), (2017, 1, 2, 23, 59, 58, 1000)), ((1999, 12, 31, 0, 0, 0, 0), (2000, 1, 1, 0, 0, 0, 0)), ((2016, 2, 29, 12, 30, 0, 999000), (2016, 12, 31, 12, 31, 1, 0)),
-              ((1965, 7, 4, 7, 7, 7, 7000), (1965, 7, 4, 8, 0, 0, 0)), ((2064, 10, 10, 10, 10, 10, 10000), (2064, 10, 10, 20, 20, 20, 20000)), ((2020, 12, 31, 23, 59, 59, 999000), (2020, 12, 31, 23, 59, 59, 999000))]
+              ((1965, 7, 4, 7, 7, 7, 7000), (1965, 7, 4, 8, 0, 0, 0)), ((2064, 10, 10, 10, 10, 10, 10000), (2064, 10, 10, 20, 20, 20, 20000)), ((2020, 12, 31, 23, 59, 59, 999000), (2020, 12, 31, 23, 59, 59, 999000)), ((2018, 3, 4, 12, 0, 0, 0), (2018, 3, 4, 12, 0, 0, 0)),
+              ((2019, 12, 30, 6, 0, 0, 50000), (2020, 3, 1, 6, 30, 0, 10000)), ((2021, 3, 1, 0, 0, 0, 5000), (2022, 2, 28, 1, 1, 1, 99000))]
 
 
 def _trip_expected(template, t, prefix=""):
@@ -1225,7 +1229,7 @@ def rule_trip_table(ctx, rid="C02.trip"):
                 consts[st.targets[0].id] = Machine().ev(st.value, dict(consts))     # every class-level constant the evaluator can read
             except AnalysisError:
                 pass
-    if not {"_time_placeholder", "_special_chars", "year2_threshold"} <= set(consts):
+    if not {"_time_placeholder", "_special_chars", "year2_threshold", "_temporal_resolution"} <= set(consts):
         raise AnalysisError("FileSet: class-level constants %s not found" % sorted({"_time_placeholder", "_special_chars", "year2_threshold"} - set(consts)))
     tp = {k: "(?P<%s>%s)" % (k, v) for k, v in consts["_time_placeholder"].items()}
     # other methods of the class that these call are looked up on demand: every method of the class is available to the evaluation
@@ -1236,8 +1240,20 @@ def rule_trip_table(ctx, rid="C02.trip"):
     for template in TRIP_TEMPLATES:
         attrs = dict(consts)
         attrs.update(methods)
+        # what the path setter derives from the template: the unit next coarser than the coarsest end field (None without end fields / with an end year)
+        import re as _re
+        res = consts["_temporal_resolution"]
+        order = list(res)
+        ends = [k[4:] for k in _re.findall(r"{(\w+)}", template) if k.startswith("end_")]
+        ends = ["year" if k == "year2" else ("day" if k == "doy" else k) for k in ends]
+        ranks = [order.index(k) for k in ends if k in order]
+        sup = None
+        if ranks and min(ranks) > 0:
+            sup = res[order[min(ranks) - 1]]
+            if res[order[min(ranks)]] < res["second"]:
+                sup = res["second"]
         attrs.update({"_time_placeholder": dict(tp), "_user_placeholder": {}, "name": "fs", "path": template, "_special_chars": list(consts["_special_chars"]),
-                      "year2_threshold": consts["year2_threshold"], "_end_time_superior": None, "_temporal_resolution": {}})
+                      "year2_threshold": consts["year2_threshold"], "_end_time_superior": sup})
         me = Stub("self", attrs)
         mods = {"os": Stub("os", {"sep": "/"})}
         for t0, t1 in TRIP_TIMES:
@@ -1418,7 +1434,7 @@ def rule_fill_table(ctx, rid="C02.fill"):
         except re.error as e_:
             wrong = wrong or {"template": template, "_fill_placeholders": got[:120], "not a regular expression": str(e_)}
             continue
-        for nm in _fill_names(template):
+        for nm in _fill_names(template) + FILL_EXTRA_NAMES:
             ncases += 1
             a_, b_ = rg.match(nm), rw.match(nm)
             ga = None if a_ is None else a_.groupdict()
